@@ -27,11 +27,17 @@ func zzEqBytes(a, b []byte) bool {
 	return ok
 }
 
-func ZZ_C18_uvarint_roundtrip() {
+func ZZ_C18_uvarint_roundtrip()              { zzC18Uvarint(2, 3) }
+func ZZ_C18_uvarint_roundtrip_long_T()       { zzC18Uvarint(3, 8) }
+func ZZ_C18_varint_roundtrip_long_T()        { zzC18Varint(2, 8) }
+func ZZ_C18_float64le_roundtrip_long_T()     { zzC18Float64LE(2, 8) }
+func ZZ_C18_varfloat_roundtrip_long_T()      { zzC18Varfloat(2, 8) }
+
+func zzC18Uvarint(maxP, maxT int) {
 	zzvBound("value", "all 2^64 uint64 values")
-	zzvBound("prefix/trailing", "arbitrary existing prefix of <=2 symbolic bytes, <=3 symbolic trailing bytes")
+	zzvBound("prefix/trailing", "arbitrary existing prefix of <=2 (thorough 3) symbolic bytes, <=3 (thorough 8) symbolic trailing bytes")
 	v := zzvUint64("v")
-	pre, trail := zzPrefixTrail(2, zzTrailMax())
+	pre, trail := zzPrefixTrail(maxP, maxT)
 	b := append([]byte{}, pre...)
 	EncodeUvarint64(&b, v)
 	n := len(b) - len(pre)
@@ -54,10 +60,12 @@ func ZZ_C18_uvarint_roundtrip() {
 	zzvAssert("framing", zzEqBytes(full, trail))
 }
 
-func ZZ_C18_varint_roundtrip() {
+func ZZ_C18_varint_roundtrip() { zzC18Varint(1, 2) }
+
+func zzC18Varint(maxP, maxT int) {
 	zzvBound("value", "all 2^64 int64 values")
 	v := zzvInt64("v")
-	pre, trail := zzPrefixTrail(1, 2)
+	pre, trail := zzPrefixTrail(maxP, maxT)
 	b := append([]byte{}, pre...)
 	EncodeVarint64(&b, v)
 	n := len(b) - len(pre)
@@ -94,10 +102,12 @@ func ZZ_C18_varint_roundtrip() {
 	}
 }
 
-func ZZ_C18_float64le_roundtrip() {
+func ZZ_C18_float64le_roundtrip() { zzC18Float64LE(1, 2) }
+
+func zzC18Float64LE(maxP, maxT int) {
 	zzvBound("value", "all 2^64 float64 bit patterns incl. NaN payloads, infinities, subnormals, -0")
 	v := zzvFloat64("v")
-	pre, trail := zzPrefixTrail(1, 2)
+	pre, trail := zzPrefixTrail(maxP, maxT)
 	b := append([]byte{}, pre...)
 	EncodeFloat64LE(&b, v)
 	n := len(b) - len(pre)
@@ -118,10 +128,12 @@ func ZZ_C18_float64le_roundtrip() {
 	zzvAssert("framing", zzEqBytes(full, trail))
 }
 
-func ZZ_C18_varfloat_roundtrip() {
+func ZZ_C18_varfloat_roundtrip() { zzC18Varfloat(1, 2) }
+
+func zzC18Varfloat(maxP, maxT int) {
 	zzvBound("value", "all 2^64 float64 bit patterns")
 	v := zzvFloat64("v")
-	pre, trail := zzPrefixTrail(1, 2)
+	pre, trail := zzPrefixTrail(maxP, maxT)
 	b := append([]byte{}, pre...)
 	EncodeVarfloat64(&b, v)
 	n := len(b) - len(pre)
